@@ -1131,6 +1131,11 @@ def _clip_chain_depth(repo, ob, failure):
         r = run_svgdx(repo, doc)
         if r["rc"] != 0 and ("DepthLimit" in r["err"] or "exceeded limit" in r["err"]):
             return {"input": doc, "observed": "rejected: " + r["err"].strip()[-60:], "expected": "accepted (nesting depth is 3)"}
+    n = 6000
+    chain = '<svg><clipPath id="c0"><rect wh="5"/></clipPath>' + "".join('<clipPath id="c%d" clip-path="url(#c%d)"><rect wh="5"/></clipPath>' % (i, i - 1) for i in range(1, n)) + '<rect wh="10" clip-path="url(#c%d)"/></svg>' % (n - 1)
+    r = run_svgdx(repo, chain, timeout=60)
+    if r["timeout"] or r["rc"] not in (0, 1, 2):
+        return {"input": chain[:160] + "...", "input_full": chain, "observed": "chain of %d clip-path references: process %s" % (n, "hangs" if r["timeout"] else "dies with status %s: %s" % (r["rc"], r["err"][-100:])), "expected": "a result or an error"}
     cyc = ('<svg><defs><clipPath id="a" clip-path="url(#b)"><rect wh="5"/></clipPath><clipPath id="b" clip-path="url(#a)"><rect wh="5"/></clipPath></defs>'
            '<rect wh="10" clip-path="url(#a)"/></svg>')
     r = run_svgdx(repo, cyc, timeout=20)
